@@ -217,6 +217,7 @@ def upsert_routes(app, routes, routes_path, route, primary_key):
         return
 
     with open(routes_path, "a") as f:
+        f.write("\n\n")  # the file may not end in a newline: never glue a decorator onto its last line
         f.write(
             "\n\n".join(
                 map(
